@@ -409,3 +409,14 @@ func finish(c *Ctx, r *Report, verifDir string, known []KnownFinding, seed int, 
 	}
 	return 0
 }
+
+// includePrereq evaluates another property's rules as prerequisite clauses of this one: a violation of the
+// prerequisite is a violation here too (e.g. completeness needs exact lookaheads and lossless packing).
+func includePrereq(c *Ctx, r *Report, clause string, f propFunc) {
+	sub := &Report{Prop: r.Prop, Extra: map[string]interface{}{}}
+	f(c, sub)
+	for _, o := range sub.Obls {
+		n := r.add(clause+"←"+o.Clause, o.Rule, o.Construct, o.Pos, o.Verdict, o.Detail)
+		n.Nontriv = o.Nontriv
+	}
+}
